@@ -45,8 +45,13 @@ const ScopeLabelledFallthrough = "labelled-fallthrough"
 // can report a false "typechecking loop" (C03-F6).
 const ScopeStructKeyNamedLikeGlobal = "struct-literal-key-named-like-package-level-declaration"
 
+// ScopeEllipsisArrayIndexMaxInt: an array literal of the form [...]T{i: v} whose
+// constant index i is the largest int: the length i+1 is not representable and
+// Build panics inside reflect.ArrayOf ("negative length") (C03-F7).
+const ScopeEllipsisArrayIndexMaxInt = "ellipsis-array-literal-index-maxint"
+
 // AllScopes lists the scope names the worker understands.
-var AllScopes = []string{ScopeLabelledBranchInRange, ScopeRecursiveType, ScopeIndexEqualLen, ScopeFloatDivZero, ScopeLabelledFallthrough, ScopeStructKeyNamedLikeGlobal}
+var AllScopes = []string{ScopeEllipsisArrayIndexMaxInt, ScopeLabelledBranchInRange, ScopeRecursiveType, ScopeIndexEqualLen, ScopeFloatDivZero, ScopeLabelledFallthrough, ScopeStructKeyNamedLikeGlobal}
 
 // inScope returns the first active scope the program falls in, or "".
 func inScope(r *gotypes.Result, active []string) string {
@@ -73,6 +78,10 @@ func inScope(r *gotypes.Result, active []string) string {
 			}
 		case ScopeStructKeyNamedLikeGlobal:
 			if hasStructKeyNamedLikeGlobal(r) {
+				return sc
+			}
+		case ScopeEllipsisArrayIndexMaxInt:
+			if hasEllipsisArrayIndexMaxInt(r) {
 				return sc
 			}
 		case ScopeLabelledFallthrough:
@@ -274,6 +283,40 @@ func hasStructKeyNamedLikeGlobal(r *gotypes.Result) bool {
 			if kv, ok := e.(*ast.KeyValueExpr); ok {
 				if id, ok := kv.Key.(*ast.Ident); ok && globals[id.Name] {
 					found = true
+				}
+			}
+		}
+		return true
+	})
+	return found
+}
+
+// hasEllipsisArrayIndexMaxInt: a composite literal whose type is written [...]T
+// and one of whose keys is a constant equal to the largest int.
+func hasEllipsisArrayIndexMaxInt(r *gotypes.Result) bool {
+	if r.Info == nil {
+		return false
+	}
+	maxInt := constant.MakeInt64(1<<63 - 1)
+	found := false
+	ast.Inspect(r.File, func(n ast.Node) bool {
+		cl, ok := n.(*ast.CompositeLit)
+		if !ok {
+			return true
+		}
+		at, ok := cl.Type.(*ast.ArrayType)
+		if !ok {
+			return true
+		}
+		if _, ok := at.Len.(*ast.Ellipsis); !ok {
+			return true
+		}
+		for _, e := range cl.Elts {
+			if kv, ok := e.(*ast.KeyValueExpr); ok {
+				if tv, ok := r.Info.Types[kv.Key]; ok && tv.Value != nil {
+					if v := constant.ToInt(tv.Value); v.Kind() == constant.Int && constant.Compare(v, token.EQL, maxInt) {
+						found = true
+					}
 				}
 			}
 		}
